@@ -75,6 +75,15 @@ Section Lex.
     end.
 End Lex.
 
+(* lexicographic product, used for the (key, value) bindings of a Tree *)
+Definition pair_ord {K V K' V' : Type} (ck : K -> K' -> comparison) (cv : V -> V' -> comparison)
+    (p : K * V) (q : K' * V') : comparison :=
+  let '(k, v) := p in let '(k', v') := q in
+  match ck k k' with
+  | Eq => cv v v'
+  | c => c
+  end.
+
 Definition bytes := list N.
 Definition bytes_ord (a b : bytes) : comparison := lex_compare N.compare a b.
 Definition str_cmp (a b : bytes) : Z := z_of_cmp (bytes_ord a b).       (* sign of strcmp *)
@@ -204,12 +213,7 @@ Fixpoint value_ord (a b : value) {struct a} : comparison :=
   | VStruct _ x, VStruct _ y => bytes_ord x y
   | VSeq _ xs, VSeq _ ys => lex_compare value_ord xs ys
   | VTree xs, VTree ys =>
-      lex_compare (fun (p q : value * value) =>
-                     let '(k, v) := p in let '(k', v') := q in
-                     match value_ord k k' with
-                     | Eq => value_ord v v'
-                     | c => c
-                     end) xs ys
+      lex_compare (pair_ord value_ord value_ord) xs ys
   | _, _ => Eq
   end.
 
@@ -225,6 +229,10 @@ Section All2.
     end.
 End All2.
 
+Definition pair_rel {K V K' V' : Type} (rk : K -> K' -> Prop) (rv : V -> V' -> Prop)
+    (p : K * V) (q : K' * V') : Prop :=
+  let '(k, v) := p in let '(k', v') := q in rk k k' /\ rv v v'.
+
 Fixpoint value_eqv (a b : value) {struct a} : Prop :=
   match a, b with
   | VInt x, VInt y => x = y
@@ -234,8 +242,7 @@ Fixpoint value_eqv (a b : value) {struct a} : Prop :=
   | VStruct t x, VStruct t' y => t = t' /\ x = y
   | VSeq _ xs, VSeq _ ys => all2 value_eqv xs ys
   | VTree xs, VTree ys =>
-      all2 (fun (p q : value * value) =>
-                 let '(k, v) := p in let '(k', v') := q in value_eqv k k' /\ value_eqv v v') xs ys
+      all2 (pair_rel value_eqv value_eqv) xs ys
   | _, _ => False
   end.
 
